@@ -128,6 +128,7 @@ class MiniCtx(ContextInterface):
     def __init__(self, frame, arch):
         self._frame = frame
         self._arch = arch
+        self.frame = frame  # patterns may use context.frame (literal pool)
         self.instructions = []
 
     def move(self, dst, src):
